@@ -50,7 +50,9 @@ def bodies(rng, st, shebangs):
 
 
 CONTRIBUTORS = ["Daniel Brown", "Carol", "Michael", "Example Ltd.", "IBM", "see https://example.com/", "Dash --", "Semi;", "Fortran c",
-                "Bang!", "Percent %", "Quote '", "Ann Contributor", "Rem REM", "dots ..", "Hash #", "Lisp ;;;", "Star *", "x dnl"]
+                "Bang!", "Percent %", "Quote '", "Ann Contributor", "Rem REM", "dots ..", "Hash #", "Lisp ;;;", "Star *", "x dnl",
+                # a name typed with combining accents (decomposed form), a compatibility character: written and found again as typed
+                "Rene\u0301 Mu\u0308ller", "\u212bngstro\u0308m Lab"]
 
 
 def count_blocks(text, args):
@@ -157,7 +159,7 @@ def run_case(case, ctx):
                             # one kind of information only, non-SPDX prefixes, contributors with every kind of ending
                             k2 = rng.random()
                             if k2 < 0.4:
-                                extra = ["-c", rng.choice(["Jane Doe", "ACME, Inc."]), "--year", "2020", "--copyright-prefix",
+                                extra = ["-c", rng.choice(["Jane Doe", "ACME, Inc.", "Rene\u0301 Mu\u0308ller", "\u212bngstro\u0308m Lab"]), "--year", "2020", "--copyright-prefix",
                                          rng.choice(["string", "string-c", "string-symbol", "symbol", "spdx", "spdx-symbol"])]
                             elif k2 < 0.6:
                                 extra = ["-l", rng.choice(["MIT", "GPL-3.0-or-later OR MIT"])]
